@@ -87,6 +87,9 @@ def all_configs():
         out.append(mkcfg("/p", True, template))
         out.append(mkcfg("/p/...", True, template, key=":system_id:"))
         out.append(mkcfg("/", True, template))
+    # a suffix that is not a plain extension: it is appended after normpath, verbatim (TFTP only, no template:
+    # Jinja's loader would normalise the name once more)
+    out.append(mkcfg("/", False, False, "/../f.txt"))
     return out
 
 
@@ -158,6 +161,8 @@ class C04(Check):
                 n = n_all - 1
             strings = list(fileh.tokens_upto(ALPHABET, n))
             for tftp in (False, True):
+                if "/" in cfg["suffix"] and not tftp:
+                    continue      # the HTTP class derives the content type from basename minus suffix (asserts)
                 seen = set()
                 # witnesses of the known failure modes first (ENOTDIR, EISDIR, ENAMETOOLONG, traversal)
                 for pre in prefixes(cfg):
